@@ -271,6 +271,8 @@ def body(chk):
                         'run_scenario\'s `retries.filter(|_| is_failed).and_then(next_try)` lives in a multi-poll coroutine (see DESIGN: stage M3)']
     sched.insert_scenarios_obligations(chk, 'C05')
     sched.get_obligations(chk, 'C05', focus='deadline')
+    from checks import sched_worlds
+    sched_worlds.run(chk, 'C05')
 
 
 if __name__ == '__main__':
